@@ -52,3 +52,20 @@ Proof.
   inversion H; subst. eapply init_state_fresh; eauto.
 Qed.
 Print Assumptions C17_initial_state_meets_hypotheses.
+
+(* ... and the further hypotheses of the run-level theorems that concern AGVs and outage records: no AGV starts with a time dependency, every AGV starts
+   idle, empty and at a place, every outage record starts inactive - for every document the compiler model accepts. (Left to the per-episode check of
+   the harness: the store clauses wfs_b, the output-buffer clause of fresh2_b and pre_ok_b - they depend on what init_state lists.) *)
+Theorem C17_initial_state_meets_the_agv_and_outage_hypotheses :
+  forall (d : ddoc) (early : bool) (i : inst) (x : state) (L : labels),
+    compile d early = Ok (i, x, L) ->
+    nodep_b x = true /\ agv_phase_b x = true /\ outages_b x && outage_nonneg_b x = true
+    /\ forallb (fun ts => tstate_eqb (t_st ts) TIdle && is_nil (b_store (t_buf ts))) (s_trans x) = true.
+Proof.
+  intros d early i x L H. unfold compile in H.
+  destruct (compile_inst d early) as [[i0 L0]|] eqn:E; simpl in H; [|discriminate].
+  destruct (init_state d i0 L0) as [x0|] eqn:E2; simpl in H; [|discriminate].
+  inversion H; subst. eapply init_state_more; eauto.
+Qed.
+Print Assumptions C17_initial_state_meets_the_agv_and_outage_hypotheses.
+
